@@ -55,8 +55,9 @@ class CaseStyle(Style):
 def profile(finding_lane=False):
     p = scalar.Profile()
     p.funcs = set(SQLA_FUNCS)
-    p.columns = dict(scalar.SCHEMA, m="decimal")
-    p.types = {"int", "float", "str", "bool", "datetime", "decimal"}
+    p.columns = dict(scalar.SCHEMA, m="decimal", iv="duration")
+    p.types = {"int", "float", "str", "bool", "datetime", "decimal", "duration"}
+    p.duration_lits = scalar.IV_LITS
     p.bool_cmp_atoms = False
     p.null_left = True
     p.bare_bool_column = True
@@ -133,6 +134,10 @@ def run(ctx):
         if style == STYLES[ctx.shard % len(STYLES)]:
             SC.bracket_string_lane(ctx, ctx.rng("brackets" + style), make_select(style, lambda x: x),
                                    findings.sqla_semantic_triggers, profile=clean)
+        SC.bool_operand_lane(ctx, ctx.rng("boolops" + style), make_select(style, lambda x: x),
+                             findings.sqla_semantic_triggers, profile=clean)
+        SC.interval_lane(ctx, ctx.rng("interval" + style), make_select(style, lambda x: x),
+                         findings.sqla_semantic_triggers, profile=clean)
         SC.math_of_literal_lane(ctx, ctx.rng("mathlit" + style), make_select(style, lambda x: x),
                                 findings.sqla_semantic_triggers, profile=clean)
         SC.neutral_boolean_lane(ctx, ctx.rng("neutral" + style), make_select(style, lambda x: x),
